@@ -82,12 +82,19 @@ def run_pipeline(chk, want, quick_cases=1500, full_cases=60000, nconc=(3, 8),
 
 def run(chk):
     run_pipeline(chk, want=("C01",))
+    run_big_slices(chk, 6000 if chk.tier == "thorough" else 600)
 
 
 def replay(doc):
     import common
     import pipeline_replay as pr
     c = doc["case"]
+    if c.get("kind") == "bigslice":
+        import trace_util
+        ev = big_slice_events(random.Random(c["seed"] + 17), c["n_events"])[c["event_id"]]
+        rej, _ = trace_util.validate("Trace_Slice", [{k: v for k, v in ev.items() if not k.startswith("_")}])
+        print(ev["_desc"], "->", [f for _, f in rej] or "accepted")
+        return 1 if rej else 0
     rnd = random.Random(c["seed"])
     concs = common.concs(c["nconc"], rnd)
     res, skip = pr.replay(c["case"], concs[c["conc_index"]], want=(doc["property"],))
@@ -97,3 +104,64 @@ def replay(doc):
     if not res:
         print("case passes")
     return 1 if res else 0
+
+
+# ---------------------------------------------------------------- code -> Trace: big slices
+def big_slice_events(rnd, n_events):
+    """Slices of huge (broadcast / Dask backed, no memory) signals with random
+    bounds; one event per real __getitem__ call, exact numbers."""
+    import numpy as np
+    import common
+    import exact
+    from common import pb, u, Time, da
+    events = []
+    rates = [(1, u.mHz), (1, u.Hz), (44.1, u.kHz), (1, u.MHz), (800 / 3, u.MHz), (2, u.GHz), (6.4, u.GHz)]
+    for i in range(n_events):
+        n = rnd.choice([0, 1, 2, 7, 10 ** 3, 10 ** 6 + 3, 10 ** 7, 123456789, 2 ** 30 + 5])
+        rate = rnd.choice(rates)
+        ep = rnd.choice(common.EPOCHS + [None])
+        if ep is not None and (n / (rate[0] * rate[1]).to_value(u.Hz) > 1e5 or rnd.random() < 0.3):
+            # UTC day arithmetic is not uniform across leap seconds (astropy is right, a day-fraction
+            # ledger is not): long spans are stamped in TAI, where jd1+jd2 differences are elapsed time
+            ep = Time(ep.jd1, ep.jd2, format="jd", scale="tai")
+        if rnd.random() < 0.5:
+            data = da.zeros((n, 2), chunks=(max(n, 1), 2), dtype="complex64")
+        else:
+            data = np.broadcast_to(np.zeros((1, 2), "complex64"), (n, 2))
+        z = pb.BasebandSignal(data, sample_rate=rate[0] * rate[1], start_time=ep, center_freq=1 * u.GHz)
+
+        def bound():
+            if rnd.random() < 0.2:
+                return None
+            m = max(n, 3)
+            return rnd.choice([rnd.randrange(-2 * m, 2 * m + 1), rnd.randrange(-3, 4), -m, m, m - 1, -m - 1, m + 1])
+        a, b = bound(), bound()
+        c = rnd.choice([None, 1, 2, 3, 7, 1000, max(n, 1), 2 * n + 1])
+        r = z[a:b:c]
+
+        def bd(x):
+            return {"none": x is None, "v": exact.big(0 if x is None else x)}
+        ev = {"id": i, "ev": "time_slice", "n": exact.big(n), "a": bd(a), "b": bd(b), "c": bd(c),
+              "rate": exact.rat(common.hz(z.sample_rate)), "hasT": ep is not None,
+              "t": exact.rat(common.time_days(z.start_time) if ep is not None else 0),
+              "n1": exact.big(len(r)), "rate1": exact.rat(common.hz(r.sample_rate)),
+              "hasT1": r.start_time is not None,
+              "t1": exact.rat(common.time_days(r.start_time) if r.start_time is not None else 0),
+              "stop1": exact.rat(common.time_days(r.stop_time) if r.start_time is not None else 0),
+              "_desc": "z[%r:%r:%r] len=%d rate=%s start=%s" % (a, b, c, n, z.sample_rate, ep)}
+        events.append(ev)
+    return events
+
+
+def run_big_slices(chk, n_events):
+    import trace_util
+    rnd = random.Random(chk.seed + 17)
+    events = big_slice_events(rnd, n_events)
+    slim = [{k: v for k, v in e.items() if not k.startswith("_")} for e in events]
+    rejected, n = trace_util.validate("Trace_Slice", slim, batch=1500, chk=chk)
+    chk.validated += n
+    byid = {e["id"]: e for e in events}
+    for e, failed in rejected:
+        chk.violation("bigslice:" + "+".join(sorted(failed)), "%s: failed %s" % (byid[e["id"]]["_desc"], failed),
+                      {"kind": "bigslice", "seed": chk.seed, "n_events": n_events, "event_id": e["id"]})
+    chk.notes["big_slice_events"] = n
